@@ -62,6 +62,8 @@ Calibration
 * ``set_index`` is only applied to columns without NA; given divisions always cover min..max of the column;
   ``repartition(divisions=)`` keeps the outer divisions unless ``force=True``; ``loc[[labels]]`` only with
   labels that exist (pandas raises for missing ones).
+* generator restricted: merge/join/concat(axis=1) only when both sides have known divisions (index-aligned);
+  ``set_index`` of an EMPTY frame only in the ``sorted=True`` form (the others give ``(nan, nan)`` divisions).
 * nothing is demanded of frames with unknown divisions (``sort=False``, ``reset_index``, ``sort_values``,
   ``clear_divisions``): they are counted (``stages_unknown_divisions``).
 """
@@ -88,14 +90,14 @@ FLOORS = {
                            "accessor_views": 3400, "known:from_pandas": 1400, "known:repartition": 2100,
                            "known:loc": 270, "known:set_index": 150, "known:align": 150, "known:blockwise": 190,
                            "known:filter": 95, "known:map_partitions": 85, "known:concat0": 70, "known:window": 150},
-              "sets": {"known_stage_variants": 40}, "max_skipped_fraction": 0.1},
-    "thorough": {"evaluations": 11000, "distinct_nontrivial": 8000,
-                 "counters": {"stages": 40000, "stages_known_divisions": 34000, "partitions_checked": 85000,
-                              "accessor_views": 22000, "known:from_pandas": 10000, "known:repartition": 11000,
-                              "known:loc": 2200, "known:set_index": 1200, "known:align": 1200,
-                              "known:blockwise": 1500, "known:filter": 750, "known:map_partitions": 700,
-                              "known:concat0": 550, "known:window": 1200},
-                 "sets": {"known_stage_variants": 45}, "max_skipped_fraction": 0.1},
+              "sets": {"known_stage_variants": 35}, "max_skipped_fraction": 0.1},
+    "thorough": {"evaluations": 11000, "distinct_nontrivial": 7500,
+                 "counters": {"stages": 34000, "stages_known_divisions": 27000, "partitions_checked": 80000,
+                              "accessor_views": 24000, "known:from_pandas": 9900, "known:repartition": 6500,
+                              "known:loc": 2400, "known:set_index": 1200, "known:align": 1000,
+                              "known:blockwise": 1700, "known:filter": 850, "known:map_partitions": 700,
+                              "known:concat0": 650, "known:window": 1500},
+                 "sets": {"known_stage_variants": 30}, "max_skipped_fraction": 0.1},
 }
 EXHAUSTIVE_SPACE = {
     "quick": "all 83 sorted int indexes of length 1..6 over a 3-value alphabet x from_pandas(npartitions 1..4, "
@@ -115,8 +117,10 @@ PENDING = {
     # --- one mechanism: Partitions._simplify_down pushes .partitions[i] through LocSlice/LocList/LocElement
     "loc:slice:partitions-accessor:index-outside-division-interval":
         "df.loc[lo:hi].partitions[i] returns input partition i (sliced) instead of output partition i",
-    "loc:partitions-accessor:KeyError@base.py:compute":
-        "df.loc[[labels]].partitions[i] applies the label list of output partition i to input partition i -> KeyError",
+    "loc:partitions-accessor:exception":
+        "df.loc[[labels]].partitions[i] applies the label list of output partition i to input partition i -> KeyError (IndexError in Partitions._divisions after a repartition)",
+    "window:partitions-accessor:exception":
+        "set_index(..).repartition(npartitions=fewer).shift(1).partitions[i]: IndexError in RepartitionToFewer._divisions (rare)",
     "loc:compute:KeyError@base.py:compute":
         "df.loc[[labels]].loc[label] raises KeyError (same Partitions push-down through LocList, reached via LocElement._lower)",
     # --- reported partition count differs from the reported divisions
@@ -139,7 +143,11 @@ PENDING = {
         "df.loc[a:b].loc[c:d] reports other divisions than its lowered form; repartition(divisions, force=True) then raises",
     "repartition:compute:ValueError@dataframe/dask_expr/_repartition.py:_lower":
         "sort_values on one partition reports unknown divisions, repartition(npartitions=1) on top reports known ones; repartition(divisions=) then raises 'unknown divisions'",
+    "optimize:Merge:reported-divisions-not-those-of-the-graph":
+        "index merge(how='right') after set_index + filter + cumsum: the lowered Merge has fewer partitions than reported (rare)",
     # --- exceptions on the construction paths
+    "set_index:compute:ValueError@local.py:start_state_from_dask":
+        "concat(axis=1) -> index merge -> set_index(col): 'Missing dependency' while computing the quantiles (graph construction; rare)",
     "set_index:construct:IndexError@dataframe/dask_expr/_collection.py:compute_current_divisions":
         "set_index(col, sorted=True) on an empty frame raises IndexError",
     "set_index:compute:AttributeError@_expr.py:__getattr__":
@@ -362,6 +370,9 @@ def _apply(step, ddf, cur, rng, gparts=()):
         if not is_frame:
             raise _Skip("series")
         form = rng.choice(("plain", "plain", "npartitions", "divisions", "sorted", "sort-false"))
+        if not len(cur) and form != "sorted":
+            # quantile divisions of an empty frame are (nan, nan): nothing to be truthful about
+            raise _Skip("set_index of an empty frame")
         if form == "sorted":
             if "s" not in cols:
                 raise _Skip("no sorted column left")
@@ -455,15 +466,16 @@ def _apply(step, ddf, cur, rng, gparts=()):
         dother = dd.from_pandas(other, npartitions=rng.randint(1, 4), sort=omono)
         how = rng.choice(("inner", "left", "outer", "right"))
         form = rng.choice(("merge", "join", "concat1"))
-        unk = "" if known and dother.known_divisions else ":some-unknown"
+        if not (known and dother.known_divisions):
+            # without known divisions merge/join are hash joins (C39's subject) and concat(axis=1) is
+            # documented to raise: the quantifier names INDEX-ALIGNED merges
+            raise _Skip("index-aligned merge needs known divisions on both sides")
         if form == "merge":
-            return ddf.merge(dother, left_index=True, right_index=True, how=how), "merge:%s%s" % (how, unk)
+            return ddf.merge(dother, left_index=True, right_index=True, how=how), "merge:%s" % how
         if form == "join":
-            return ddf.join(dother, how=how), "join:%s%s" % (how, unk)
+            return ddf.join(dother, how=how), "join:%s" % how
         if cur.index.has_duplicates:
             raise _Skip("concat axis=1 with duplicate labels")
-        if unk:
-            raise _Skip("concat(axis=1) with unknown divisions is documented to raise")
         j = "inner" if how == "inner" else "outer"
         return dd.concat([ddf, dother], axis=1, join=j), "concat-axis1:%s" % j
 
@@ -630,7 +642,15 @@ def _observe(ctx, ddf, stage, state):
     except NotImplementedError:
         return cur, gparts
     except Exception as e:  # noqa: BLE001
-        ctx.exception(e, prefix="%s:partitions-accessor" % stage.split(":")[0], stage=stage, divisions=shown, **state)
+        from vf.core.ctx import through_shim
+
+        if through_shim(e):
+            ctx.envlimited("%s: %s" % (type(e).__name__, e))
+        else:
+            # Partitions pushed through an expression that does not keep partition numbers fails in many
+            # ways (KeyError / IndexError in different places): one label per step kind
+            ctx.violation("%s:partitions-accessor:exception" % stage.split(":")[0],
+                          "%s: %s" % (type(e).__name__, str(e)[:300]), stage=stage, divisions=shown, **state)
         state["accessor_tainted"] = True
         return cur, gparts
     if v:
